@@ -262,5 +262,92 @@ theorem end_to_end (a : Args) (sc : Script) (hh : NUL ∉ a.host)
     · exact absurd h hnH
     · exact absurd h hnS
 
+/-! ### the class of the relayed line as a function of the server's replies (all three letters) -/
+
+theorem orrOf_head (s : Bytes) (v : Int) (h : s ≠ []) :
+    orrOf s v = if headB s = lS then 0 else if headB s = lH then -1 else v := by
+  cases s with
+  | nil => exact absurd rfl h
+  | cons c t => simp [orrOf, headB]
+
+theorem verdict_letter (v : Verdict) (o : Obs) (h : verdictOK v o = true) : o.ml = vLetter v := by
+  cases v with
+  | K => simpa [verdictOK, vLetter] using h
+  | Z => simpa [verdictOK, vLetter] using h
+  | D => simpa [verdictOK, vLetter] using h
+  | lost c =>
+    simp only [verdictOK, Bool.and_eq_true, beq_iff_eq] at h
+    simpa [vLetter] using h.1
+
+theorem letter_result (v : Verdict) : Nq.Lemmas.Rspawn.letterB (Nq.Lemmas.Rspawn.resultOf (some (vLetter v))) = vLetter v := by
+  cases v <;> simp [vLetter, Nq.Lemmas.Rspawn.resultOf, Nq.Lemmas.Rspawn.letterB, cK, cZ, cD]
+
+theorem vLetter_not_hs (v : Verdict) : vLetter v ≠ lS ∧ vLetter v ≠ lH := by
+  cases v <;> simp [vLetter, cK, cZ, cD, lS, lH]
+
+/-- **the fold of the recipient letter with the message verdict, end to end**: whatever the server
+sends, the line `report()` relays for qmail-remote's output starts with the class `relayClass` gives for the
+rules' reading of the server's replies — first recipient refused 4xx → Z, refused 5xx → D, otherwise
+the message verdict's class (a lost connection → Z) -/
+theorem relay_class (a : Args) (sc : Script) (hh : NUL ∉ a.host) :
+    headB (rreport 0 (render (smtpRun a sc))) = relayClass (expect (abstr a sc)) := by
+  have hok : ResOK (smtpRun a sc) := run_ok a sc.wfail hh _
+  have good : Good (expect (abstr a sc)) (smtpRun a sc) := run_good a sc.wfail _
+  generalize smtpRun a sc = res at hok good
+  generalize expect (abstr a sc) = e at good
+  have hnul : ∀ x ∈ res.rcpt ++ [res.msg], NUL ∉ x := by
+    intro x hx
+    rcases List.mem_append.mp hx with h | h
+    · exact (hok.1 x h).1
+    · simp at h; rw [h]; exact hok.2.1
+  have hrec : records [] (render res) = res.rcpt ++ [res.msg] := records_render _ hnul
+  have hml : headB res.msg = vLetter e.v := verdict_letter e.v (obsOf res) good.1
+  have hrl : res.rcpt.map headB = e.rl := good.2.1
+  have hmne : res.msg ≠ [] := by
+    intro e0
+    have := hok.2.2
+    rw [e0] at this
+    simp [headB, isKZD, cK, cZ, cD] at this
+  have hne : render res ≠ [] := by
+    unfold render
+    cases hr : res.rcpt with
+    | nil =>
+      cases hm : res.msg with
+      | nil => exact absurd hm hmne
+      | cons c t => simp
+    | cons r0 rest =>
+      cases h0 : r0 with
+      | nil =>
+        have h1 := (hok.1 r0 (by simp [hr])).2
+        rw [h0] at h1
+        rcases h1 with h | h | h <;> simp [headB, lR, lH, lS] at h
+      | cons c t => simp
+  rw [Nq.Lemmas.Rspawn.headB_rreport_normal 0 (render res) rfl rfl hne, hrec,
+      firstKZD_rcpts _ _ hok.1 hok.2.2, hml, orrOf_head _ _ hne]
+  cases hr : res.rcpt with
+  | nil =>
+    have hhead : headB (render res) = vLetter e.v := by
+      simp only [render, hr, List.nil_append, List.flatMap_cons, List.flatMap_nil, List.append_nil]
+      rw [headB_append _ _ hmne]; exact hml
+    have hel : e.rl = [] := by rw [← hrl, hr]; rfl
+    rw [hhead]
+    simp only [(vLetter_not_hs e.v).1, (vLetter_not_hs e.v).2, if_false, relayClass, hel, List.head?_nil]
+    exact letter_result e.v
+  | cons r0 rest =>
+    have h0 := hok.1 r0 (by simp [hr])
+    have hr0 : r0 ≠ [] := by
+      intro e0; rcases h0.2 with h | h | h <;> simp [e0, headB, lR, lH, lS] at h
+    have hhead : headB (render res) = headB r0 := by
+      simp only [render, hr, List.cons_append, List.flatMap_cons, List.append_assoc]
+      exact headB_append _ _ hr0
+    have hel : e.rl.head? = some (headB r0) := by rw [← hrl, hr]; rfl
+    rw [hhead]
+    simp only [relayClass, hel]
+    by_cases hS : headB r0 = lS
+    · simp [hS, Nq.Lemmas.Rspawn.letterB]
+    · by_cases hH : headB r0 = lH
+      · simp [hH, Nq.Lemmas.Rspawn.letterB, lH, lS]
+      · simp only [hS, hH, if_false]
+        exact letter_result e.v
 
 end Nq.Lemmas.RemoteSmtp
